@@ -269,6 +269,25 @@ def discharge_site(prog, ctx, n, site, fa, tb, eng, reviewed, used_reviews, nume
             ords = [show(tb.operand(a)) for a in site.term["args"][1:]]
             if any("Relaxed" in o or "SeqCst" in o for o in ords):
                 return "rule", "atomic %s with ordering %s is valid" % (nme.split("::")[-1], ords[-1])
+    elif site.kind.startswith("explicit"):
+        # an explicit panic taken only on the poisoned outcome of acquiring a lock: same argument as lock().unwrap()
+        def lock_call(x):
+            return x[0] == "call" and ("rwlock::RwLock" in x[1] or "mutex::Mutex" in x[1]) and \
+                x[1].split("::")[-1] in ("read", "write", "lock", "try_read", "try_write", "try_lock")
+        err_of = None       # the lock call whose Err outcome guards the site
+        poisoned = False
+        for c, tk in guards_of(prog, site.body, site.bb, tb):
+            if c[0] != "discr":
+                continue
+            x = c[1]
+            if lock_call(x) and tk == 1:
+                err_of = x
+            # switch over the TryLockError inside Err: Poisoned is variant 0, WouldBlock variant 1
+            if x[0] == "field" and x[2] == "0" and x[1][0] == "variant" and x[1][2] == "Err" and lock_call(x[1][1]) and tk == 0:
+                poisoned = True
+        if err_of is not None and (poisoned or not err_of[1].split("::")[-1].startswith("try_")):
+            return "rule", ("panic only on a poisoned lock: poisoning requires a panic while the guard is held; the guarded sections are the "
+                            "TranspositionTable operations whose own panic sites are part of this inventory")
     if (n, site.key) in reviewed:
         used_reviews.add((n, site.key))
         return "reviewed", reviewed[(n, site.key)]["reason"]
